@@ -69,6 +69,8 @@ let project lines =
     prev := l) lines;
   (List.rev !evs, List.rev !complaints)
 
+exception Unsupported of string
+
 (* ------------------------------------------------------------------------------------ *)
 (* configuration                                                                         *)
 (* ------------------------------------------------------------------------------------ *)
@@ -106,6 +108,19 @@ let is_localhost name =
 
 let lookups_list cfg = List.filter_map (fun c -> if c = 'b' then Some true else if c = 'f' then Some false else None)
     (List.init (String.length cfg.lookups) (String.get cfg.lookups))
+
+(* configuration that does not come from the options of the case (sysconf=lookups,domains, a
+   resolv.conf written by the case, /etc/nsswitch.conf) and is replaced by every ares_reinit: the
+   simulator's op effcfg prints what the channel works with; a case whose configuration may have
+   such a source is replayed only between an EFFCFG line and the next ares_reinit *)
+let cfg_of_effcfg cfg ws =
+  let lookups = (match field "lookups" ws with Some l -> l | None -> raise (Unsupported "effcfg")) in
+  let ndots = (match field "ndots" ws with Some n -> (try int_of_string n with _ -> raise (Unsupported "effcfg")) | None -> raise (Unsupported "effcfg")) in
+  let domains = (match field "domains" ws with
+    | Some d when String.length d >= 2 ->
+      let inner = String.sub d 1 (String.length d - 2) in if inner = "" then [] else split_on ',' inner
+    | _ -> raise (Unsupported "effcfg")) in
+  { cfg with lookups; ndots; domains }
 
 (* ------------------------------------------------------------------------------------ *)
 (* tape                                                                                  *)
@@ -179,8 +194,7 @@ let sync_status lines =
       scan rest in
   scan lines; tbl
 
-exception Unsupported of string
-
+(* cfg: the configuration in force, asked for only by the requests that depend on it *)
 let call_of_op cfg sync ws =
   let name_arg n = if n = "-" then "" else n in
   let sync_of t = Hashtbl.find_opt sync t in
@@ -200,16 +214,16 @@ let call_of_op cfg sync ws =
         | None, "sendraw" -> ASendRaw tn
         | None, "query" -> AQuery tn
         | None, "oquery" -> AOQuery (tn, z_of_int 0)
-        | None, "search" -> ASearch (tn, search_names cfg (name_arg (List.hd rest)))
-        | None, "osearch" -> AOSearch (tn, search_names cfg (name_arg (List.hd rest)))
-        | None, "ghba" -> AGhba (tn, lookups_list cfg)
+        | None, "search" -> ASearch (tn, search_names (cfg ()) (name_arg (List.hd rest)))
+        | None, "osearch" -> AOSearch (tn, search_names (cfg ()) (name_arg (List.hd rest)))
+        | None, "ghba" -> AGhba (tn, lookups_list (cfg ()))
         | None, "gni" ->
           let flags = (match rest with _ :: _ :: f :: _ -> (try int_of_string f with _ -> 0) | _ -> 0) in
-          AGni (tn, lookups_list cfg, flags land 4 <> 0)
+          AGni (tn, lookups_list (cfg ()), flags land 4 <> 0)
         | None, ("gai" | "ghbn") ->
           let name = name_arg (List.hd rest) in
           let fam = (match rest with _ :: f :: _ -> (try int_of_string f with _ -> 0) | _ -> 0) in
-          let args = (tn, search_names cfg name, nat_of_int fam, lookups_list cfg, is_localhost name) in
+          let args = (tn, search_names (cfg ()) name, nat_of_int fam, lookups_list (cfg ()), is_localhost name) in
           if kind = "gai" then (let (a, b, c, d, e) = args in AGai (a, b, c, d, e))
           else (let (a, b, c, d, e) = args in AGhbn (a, b, c, d, e))
         | _ -> raise (Unsupported kind)))
@@ -232,8 +246,12 @@ let server_count cfg l =
   if n > 1 && List.mem "primary" cfg.flags then raise (Unsupported "setservers with primary") else n
 
 (* history = list of (input option, tape, description) *)
-let build_history cfg lines =
+let build_history cfg0 lines =
   let sync = sync_status lines in
+  (* with a resolv.conf of its own the configuration is only known after an effcfg *)
+  let dynamic = List.mem_assoc "resolvconf" cfg0.keys || List.mem_assoc "sysconf" cfg0.keys in
+  let cur_cfg = ref (if dynamic then None else Some cfg0) in
+  let the_cfg () = (match !cur_cfg with Some c -> c | None -> raise (Unsupported "configuration not known (no effcfg since the last reinit)")) in
   let segs = ref [] in
   let cur_in = ref None and cur_tape = ref [] and cur_desc = ref "init" in
   let final = ref None in
@@ -269,21 +287,31 @@ let build_history cfg lines =
       (match op with
        | "oncb" :: t :: [script] ->
          let sws = split_on ',' script in
+         (* a request that depends on the configuration, made from a callback that may run after an
+            ares_reinit: which configuration it meets is not known when the script is registered *)
+         (match sws with
+          | k :: _ when dynamic && List.mem k ["search"; "osearch"; "gai"; "ghbn"; "ghba"; "gni"] ->
+            raise (Unsupported "configuration-dependent request in a script")
+          | _ -> ());
          (match tok_of t with
-          | Some tk -> cur_in := Some (IOnCb (nat_of_int tk, call_of_op cfg sync sws))
+          | Some tk -> cur_in := Some (IOnCb (nat_of_int tk, call_of_op the_cfg sync sws))
           | None -> raise (Unsupported "oncb token"))
        | "destroy" :: _ -> cur_in := Some IDestroy
-       | "setservers" :: l :: _ -> cur_in := Some (IApi ASetServers); cur_tape := [TU (nat_of_int (server_count cfg l))]
+       | "setservers" :: l :: _ -> cur_in := Some (IApi ASetServers); cur_tape := [TU (nat_of_int (server_count cfg0 l))]
+       | ("writefile" | "effcfg") :: _ -> cur_in := Some (IApi ANop)
        | ("proc" | "proct" | "procfd" | "procsel" | "run") :: _ -> ()
        | ("rsp" | "rspall" | "raw" | "rawfrom" | "zerolen" | "chunk" | "wpat" | "reset" | "eof" | "connectlater"
          | "connected" | "connfail" | "writable" | "fail" | "adv" | "advus") :: _ -> ()
        | ("flushwrites" | "setsortlist" | "setlocalip4" | "setlocalip6" | "setlocaldev") :: _ ->
          raise (Unsupported (List.hd op))
-       | _ -> cur_in := Some (IApi (call_of_op cfg sync op)))
+       | _ -> cur_in := Some (IApi (call_of_op the_cfg sync op)))
     | ("PROC" | "PROCSEL") :: r :: w :: _ ->
       close (); cur_desc := l;
       cur_proc := Some (socks_of_list w, socks_of_list r)
-    | "CBOP" :: "setservers" :: l0 :: _ -> cur_tape := TU (nat_of_int (server_count cfg l0)) :: !cur_tape
+    | "CBOP" :: "setservers" :: l0 :: _ -> cur_tape := TU (nat_of_int (server_count cfg0 l0)) :: !cur_tape
+    | "REINIT" :: ws' ->
+      if field "rc" ws' = Some "0" then (if dynamic then cur_cfg := None) else raise (Unsupported "reinit failed")
+    | "EFFCFG" :: ws' -> cur_cfg := Some (cfg_of_effcfg cfg0 ws')
     | "BADOP" :: _ when contains l "setservers" ->
       (match !cur_tape with TU _ :: r -> cur_tape := r | _ -> ());
       (match !cur_in with Some (IApi ASetServers) -> cur_in := Some (IApi ANop) | _ -> ())
@@ -391,8 +419,10 @@ let () =
       let diff = ref None in
       if !supported then begin
         (try
-          if List.exists (fun (k', _) -> List.mem k' ["failalloc"; "hosts"; "resolvconf"; "hostaliases"; "localdomain"; "resoptions"; "csv"; "pendingwritecb"]) cfg.keys
+          if List.exists (fun (k', _) -> List.mem k' ["failalloc"; "hosts"; "hostaliases"; "localdomain"; "resoptions"; "csv"; "pendingwritecb"]) cfg.keys
           then raise (Unsupported "config");
+          (* servers from the resolv.conf: their number is not known here *)
+          if List.mem_assoc "resolvconf" cfg.keys && List.assoc_opt "servers" cfg.keys = Some "0" then raise (Unsupported "config");
           let (segs, final) = build_history cfg lines in
           if dump then begin
             Printf.printf "(* case %d: %s *)\nDefinition h%d : list (input * list tev) := [\n%s].\nDefinition f%d : list tev := %s.\n" k line k
@@ -405,8 +435,8 @@ let () =
                        cf_dns0x20 = List.mem "dns0x20" cfg.flags } in
           (* the fuel: Lifecycle_fuel_top.run_fuel_sufficient shows that fuel_bound (20 x (4 x tape events +
              sizes of the calls) + 10) is never exhausted, so "out of fuel" is not among the ways the
-             model can stop *)
-          let fuel = fuel_bound (List.filter_map (fun (inp, tape, _) -> match inp with Some i -> Some (i, tape) | None -> None) segs)
+             model can stop; fuel_bound_tr is the same number (fuel_bound_tr_eq) computed tail-recursively *)
+          let fuel = fuel_bound_tr (List.filter_map (fun (inp, tape, _) -> match inp with Some i -> Some (i, tape) | None -> None) segs)
                                 (match final with Some t -> t | None -> []) in
           (* step by step, to name the operation at which model and implementation part *)
           let st = ref (init_state mcfg) in
@@ -452,7 +482,7 @@ let () =
             end
           end
         with
-        | Unsupported _ -> supported := false
+        | Unsupported why -> supported := false; if (try Sys.getenv "C01_WHY" = "1" with Not_found -> false) then Printf.printf "WHY %d %s\n" k why
         | Failure m -> diff := Some ("driver: " ^ m)
         | Not_found -> diff := Some "driver: Not_found")
       end;
